@@ -21,7 +21,7 @@ ASSUMPTIONS = ["a catalogue NAME.EXT spelling exactly '.' or '..' makes open() f
 TIME_LIMIT = 20
 
 EVIL_NAMES = ["../d", "../side0", "../side1", "../../PW", "..", ".", "a/b", "/ABS", "x\x00y", "..\\..", "....//", "A/../B", "\x00", "/", "//", "é", "\xff\xfe", " / ", "CON", "a\nb"]
-EVIL_PAIR_NAMES = [".", "", "..", "A/..", "/", "../..", "..//", "X/", "../d", "../side0", "../side3", "d/../..", "./../d"]
+EVIL_PAIR_NAMES = [".", "", "..", "A/..", "/", "../..", "..//", "X/", "../d", "../side0", "../side3", "d/../..", "./../d", "../../PW", "../x", "/tmp/zz1", "a/../../y"]
 EVIL_PAIR_EXTS = ["/AB", "./A", "/..", "/", "..", ".", "/.", "A/B", "//A", "", "X", "BIN"]
 
 
@@ -117,7 +117,7 @@ def gen_cases(rng, tier):
     for a, b in pairs:
         t = {"files": [{"name": a, "ext": b, "kind": 1, "mode": 0, "chunks": [{"pat": "41", "len": 5}]}], "wseed": 1, "tail": 0, "tailfill": 0}
         cases.append({"kind": "tape", "tape": t, "mseed": 0, "verbose": False, "pair": [a, b]})
-    dp = pairs if tier == "thorough" else rng.sample(pairs, 16)
+    dp = pairs if tier == "thorough" else rng.sample(pairs, 48)
     for a, b in dp:
         cases.append({"kind": "disk", "spec": gen_third_party(rng, nsides=rng.choice([1, 4]), is_fd=rng.random() < 0.6, max_files=2), "mseed": 0, "verbose": False, "pair": [a, b]})
     return cases, {"random": n, "name/extension pairs on tapes": len(pairs), "name/extension pairs on disks": len(dp)}
